@@ -17,24 +17,28 @@ import (
 //
 // All classes preserve the output of the four canonicalisers for every subtree, except:
 //
-//	Comments  changes the #WithComments variants (use ForWithComments)
+//	Comments  changes the #WithComments variants (use ForWithComments). Without
+//	          TextComments no comment is inserted into an element whose content is
+//	          character data only (the JDK's XML-DSig unmarshaller reads only the first
+//	          text node of DigestValue, Modulus, X509Certificate ...)
 //	UnusedNS  changes inclusive Canonical XML (use ForInclusive); exclusive c14n only
 type Style struct {
 	Tape []byte
 
-	AttrOrder   bool // permute attributes and namespace declarations inside a start tag
-	Quotes      bool // ' or " around attribute values
-	EmptyForm   bool // <a/> or <a></a>
-	TagSpace    bool // white space inside tags (between attributes, around =, before >, in PIs)
-	CharRefs    bool // named/decimal/hex character references instead of literal characters
-	CDATA       bool // CDATA sections or escaped text, CDATA sections split
-	LineEndings bool // a line feed in text written as a literal CR LF pair (parsers normalise it back)
-	Decl        bool // XML declaration added/removed, encoding/standalone re-spelled
-	BOM         bool // UTF-8 byte order mark
-	OuterSpace  bool // white space between the items outside the document element
-	Comments    bool // comments dropped and inserted (inside and outside the document element)
-	RedundantNS bool // redundant re-declarations of in-scope bindings dropped and inserted
-	UnusedNS    bool // unused declarations dropped, moved to another element, inserted
+	AttrOrder    bool // permute attributes and namespace declarations inside a start tag
+	Quotes       bool // ' or " around attribute values
+	EmptyForm    bool // <a/> or <a></a>
+	TagSpace     bool // white space inside tags (between attributes, around =, before >, in PIs)
+	CharRefs     bool // named/decimal/hex character references instead of literal characters
+	CDATA        bool // CDATA sections or escaped text, CDATA sections split
+	LineEndings  bool // a line feed in text written as a literal CR LF pair (parsers normalise it back)
+	Decl         bool // XML declaration added/removed, encoding/standalone re-spelled
+	BOM          bool // UTF-8 byte order mark
+	OuterSpace   bool // white space between the items outside the document element
+	Comments     bool // comments dropped and inserted (inside and outside the document element)
+	TextComments bool // with Comments: also next to the character data of text-only elements
+	RedundantNS  bool // redundant re-declarations of in-scope bindings dropped and inserted
+	UnusedNS     bool // unused declarations dropped, moved to another element, inserted
 }
 
 // ForInclusive returns the style restricted to what inclusive Canonical XML preserves.
@@ -51,7 +55,7 @@ func (s Style) String() string {
 		n string
 	}{{s.AttrOrder, "AttrOrder"}, {s.Quotes, "Quotes"}, {s.EmptyForm, "EmptyForm"}, {s.TagSpace, "TagSpace"},
 		{s.CharRefs, "CharRefs"}, {s.CDATA, "CDATA"}, {s.LineEndings, "LineEndings"}, {s.Decl, "Decl"}, {s.BOM, "BOM"}, {s.OuterSpace, "OuterSpace"},
-		{s.Comments, "Comments"}, {s.RedundantNS, "RedundantNS"}, {s.UnusedNS, "UnusedNS"}} {
+		{s.Comments, "Comments"}, {s.TextComments, "TextComments"}, {s.RedundantNS, "RedundantNS"}, {s.UnusedNS, "UnusedNS"}} {
 		if f.b {
 			on = append(on, f.n)
 		}
@@ -62,19 +66,20 @@ func (s Style) String() string {
 // GenStyle draws a style: every class on or off, and a choice tape.
 func GenStyle(t *rapid.T) Style {
 	s := Style{
-		AttrOrder:   rapid.Bool().Draw(t, "style-attrorder"),
-		Quotes:      rapid.Bool().Draw(t, "style-quotes"),
-		EmptyForm:   rapid.Bool().Draw(t, "style-emptyform"),
-		TagSpace:    rapid.Bool().Draw(t, "style-tagspace"),
-		CharRefs:    rapid.Bool().Draw(t, "style-charrefs"),
-		CDATA:       rapid.Bool().Draw(t, "style-cdata"),
-		LineEndings: rapid.Bool().Draw(t, "style-lineendings"),
-		Decl:        rapid.Bool().Draw(t, "style-decl"),
-		BOM:         rapid.Bool().Draw(t, "style-bom"),
-		OuterSpace:  rapid.Bool().Draw(t, "style-outerspace"),
-		Comments:    rapid.Bool().Draw(t, "style-comments"),
-		RedundantNS: rapid.Bool().Draw(t, "style-redundantns"),
-		UnusedNS:    rapid.Bool().Draw(t, "style-unusedns"),
+		AttrOrder:    rapid.Bool().Draw(t, "style-attrorder"),
+		Quotes:       rapid.Bool().Draw(t, "style-quotes"),
+		EmptyForm:    rapid.Bool().Draw(t, "style-emptyform"),
+		TagSpace:     rapid.Bool().Draw(t, "style-tagspace"),
+		CharRefs:     rapid.Bool().Draw(t, "style-charrefs"),
+		CDATA:        rapid.Bool().Draw(t, "style-cdata"),
+		LineEndings:  rapid.Bool().Draw(t, "style-lineendings"),
+		Decl:         rapid.Bool().Draw(t, "style-decl"),
+		BOM:          rapid.Bool().Draw(t, "style-bom"),
+		OuterSpace:   rapid.Bool().Draw(t, "style-outerspace"),
+		Comments:     rapid.Bool().Draw(t, "style-comments"),
+		TextComments: rapid.Bool().Draw(t, "style-textcomments"),
+		RedundantNS:  rapid.Bool().Draw(t, "style-redundantns"),
+		UnusedNS:     rapid.Bool().Draw(t, "style-unusedns"),
 	}
 	s.Tape = rapid.SliceOfN(rapid.Byte(), 16, 128).Draw(t, "style-tape")
 	return s
@@ -455,10 +460,10 @@ func (w *writer) styleComment() *Node {
 	return &Node{Kind: Comment, Data: styleComments[w.next(len(styleComments))]}
 }
 
-func (w *writer) restyleList(in []*Node) []*Node {
+func (w *writer) restyleList(in []*Node, insert bool) []*Node {
 	var out []*Node
 	for _, c := range in {
-		if w.next(8) == 7 {
+		if insert && w.next(8) == 7 {
 			out = append(out, w.styleComment())
 		}
 		if c.Kind == Comment && w.next(3) == 1 {
@@ -466,18 +471,29 @@ func (w *writer) restyleList(in []*Node) []*Node {
 		}
 		out = append(out, c)
 	}
-	if w.next(8) == 7 {
+	if insert && w.next(8) == 7 {
 		out = append(out, w.styleComment())
 	}
 	return out
 }
 
 func (w *writer) restyleComments(d *Doc) {
-	d.Prolog = w.restyleList(d.Prolog)
-	d.Epilog = w.restyleList(d.Epilog)
+	d.Prolog = w.restyleList(d.Prolog, true)
+	d.Epilog = w.restyleList(d.Epilog, true)
 	var rec func(n *Node)
 	rec = func(n *Node) {
-		n.Children = w.restyleList(n.Children)
+		textOnly := false
+		for _, c := range n.Children {
+			if c.Kind == Text {
+				textOnly = true
+			}
+		}
+		for _, c := range n.Children {
+			if c.Kind == Element {
+				textOnly = false
+			}
+		}
+		n.Children = w.restyleList(n.Children, w.st.TextComments || !textOnly)
 		for _, c := range n.Children {
 			if c.Kind == Element {
 				rec(c)
